@@ -848,7 +848,8 @@ def _group_func_wrap(
             counts,
         )
 
-    if orig_type.kind in "mM":
+    if orig_type.kind in "mM" and not counting:
+        # counts of temporal values are counts, not timestamps
         result = result.astype(orig_type)
 
     if return_count:
